@@ -395,7 +395,7 @@ def run_grid(rd):
     # (y slowest, z fastest) before the comparison, so a different but complete enumeration order does not alarm
     pts = sorted(g64.tolist(), key=lambda p: (p[1], p[0], p[2]))
     info["order_kept"] = pts == g64.tolist()
-    term = f"(CGrid {vq(r1)} {vq(r2)} {q(pad)} {q(s)} {q(tol)} (Some {rowsq(pts)}))"
+    term = f"(CGrid {vq(r1)} {vq(r2)} {q(pad)} {q(s)} {q(tol)} (Some {ptsq(pts)}))"
     return term, viol, info
 
 
@@ -410,7 +410,8 @@ def desc_inputs(ctx):
             generic = (i % 3 == 2)
             C, N = rng.randint(1, 4), rng.randint(1, 7)
             if generic:
-                coords = [[[round(rng.uniform(-3, 3), 4) for _ in range(3)] for _ in range(N)] for _ in range(C)]
+                f32 = np_().float32          # arbitrary (not lattice-aligned) coordinates, representable in float32
+                coords = [[[float(f32(rng.uniform(-3, 3))) for _ in range(3)] for _ in range(N)] for _ in range(C)]
             else:
                 coords = [[[rng.randint(-48, 48) / 16.0 for _ in range(3)] for _ in range(N)] for _ in range(C)]
             flat = [p for c in coords for p in c]
@@ -457,16 +458,34 @@ def target_of(ml, rd, ens):
     return cls(n_atoms=co.shape[1], coords=co[0]), co[0:1]
 
 
+def common_den(vals):
+    d = 1
+    for v in vals:
+        d = max(d, v.denominator)          # floats are dyadic: every denominator is a power of two, max = lcm
+    assert d & (d - 1) == 0
+    return d
+
+
+def ptsq(X):
+    """list of points as (qpts den [(x, y, z); ...]) : one integer literal per coordinate"""
+    F = [[Fr(v) for v in p] for p in X]
+    den = common_den([v for p in F for v in p])
+    body = "; ".join("(" + ", ".join(str(int(v * den)) for v in p) + ")" for p in F)
+    return f"(qpts {den} [{body}]%Z)"
+
+
 def ensq(E):
-    return cq_list(rowsq(X) for X in E)
+    return cq_list(ptsq(X) for X in E)
 
 
 def zl(l):
-    return cq_list(cq_Z(int(i)) for i in l)
+    return "[" + "; ".join(str(int(i)) for i in l) + "]%Z"
 
 
 def ql(l):
-    return cq_list(q(x) for x in l)
+    F = [Fr(v) for v in l]
+    den = common_den(F)
+    return f"(qnums {den} [" + "; ".join(str(int(v * den)) for v in F) + "]%Z)"
 
 
 def run_desc(ml, rd):
@@ -513,7 +532,7 @@ def run_desc(ml, rd):
                             break
                     if viol:
                         break
-            term = f"(CNearest {q(NEAR_BAND)} {ensq(cosel.tolist())} {q(rd['cut'])} {rowsq(g64.tolist())} {cq_list(zl(r) for r in rows.tolist())})"
+            term = f"(CNearest {q(NEAR_BAND)} {ensq(cosel.tolist())} {q(rd['cut'])} {ptsq(g64.tolist())} {cq_list(zl(r) for r in rows.tolist())})"
             return term, viol, info
         if kind == "prune":
             tgt, cosel = target_of(ml, rd, ens)
@@ -534,7 +553,7 @@ def run_desc(ml, rd):
                                 f"from the nearest atom (< max_dist/(1+eps) = {rd['cut'] / (1 + rd['eps']):.6f})")
                     if viol:
                         break
-            term = f"(CPrune {q(NEAR_BAND)} {rowsq(atoms.tolist())} {q(rd['cut'])} {q(rd['eps'])} {rowsq(g64.tolist())} {zl(kept.tolist())})"
+            term = f"(CPrune {q(NEAR_BAND)} {ptsq(atoms.tolist())} {q(rd['cut'])} {q(rd['eps'])} {ptsq(g64.tolist())} {zl(kept.tolist())})"
             return term, viol, info
         w = np.array(rd["weights"], dtype=float) if rd["weighted"] else None
         wq = "None" if w is None else f"(Some {ql(rd['weights'])})"
@@ -545,7 +564,7 @@ def run_desc(ml, rd):
             amb = (np.abs(d2 - (radii ** 2)[None, :, None]) <= float(SURF_BAND)).any(axis=(0, 1))
             ref = np.average(inside.astype(float), axis=0, weights=w)
             viol = desc_compare(kind, what, obs, ref, amb, g64)
-            term = f"(CAso {q(SURF_BAND)} {q(VAL_TOL)} {ensq(co.tolist())} {ql(radii.tolist())} {wq} {rowsq(g64.tolist())} {ql(obs.tolist())})"
+            term = f"(CAso {q(SURF_BAND)} {q(VAL_TOL)} {ensq(co.tolist())} {ql(radii.tolist())} {wq} {ptsq(g64.tolist())} {ql(obs.tolist())})"
             info["ambiguous"] = int(amb.sum())
             return term, viol, info
         # aeif / atomic_indicator_field
@@ -572,7 +591,7 @@ def run_desc(ml, rd):
         ref = np.average(per, axis=0, weights=w)
         viol = desc_compare(kind, what, obs, ref, amb, g64)
         term = (f"(CAif {q(SURF_BAND)} {q(NEAR_BAND)} {q(VAL_TOL)} {ensq(co.tolist())} {ql(radii.tolist())} {cq_list(ql(v) for v in values.tolist())} "
-                f"{q(cut)} {cq_list(zl(r) for r in idx.tolist())} {wq} {rowsq(g64.tolist())} {ql(obs.tolist())})")
+                f"{q(cut)} {cq_list(zl(r) for r in idx.tolist())} {wq} {ptsq(g64.tolist())} {ql(obs.tolist())})")
         info["ambiguous"] = int(amb.sum())
         return term, viol, info
     except Exception as e:  # noqa
